@@ -1491,6 +1491,8 @@ impl ParametricNullableCtx {
 
     fn dnf(&mut self, cond: &ParamCond, neg: bool) -> Result<Dnf> {
         let r = match cond {
+            // the negation of `true` is the empty disjunction
+            ParamCond::True if neg => vec![],
             ParamCond::True => vec![self.clauses.insert(vec![])],
             ParamCond::NE(_, _)
             | ParamCond::EQ(_, _)
